@@ -60,6 +60,8 @@ def gen_case(rng):
     # 'near': the exact solution plus a relative perturbation between 10*eps and sqrt(eps) (a warm start from a coarser solve)
     p['near'] = rng.uniform(0.0, 1.0)
     p['band'] = -1
+    # budget of the local iterative solver: fewer inner iterations per cycle with more restarts (same total work or more)
+    p['li'], p['resets'] = rng.choice([(40, 2), (40, 2), (40, 2), (12, 8), (20, 4)])
     if cls == 'kronsum':
         p['terms'] = rng.randint(1, 4)
     if cls == 'ipe':
@@ -137,13 +139,13 @@ def build(p):
 
 
 def family(p):
-    return '%s|d%d|e%d|%s|mf%d|ls%d|%s|band%d|%s' % (p['cls'], len(p['N']), round(-math.log10(p['eps'])), p['prec'], p['max_full'], p['ls'], p['x0'], p['band'],
-                                                  p['plan']['kind'] if p['plan'] else 'nofault')
+    return '%s|d%d|e%d|%s|mf%d|ls%d|%s|band%d|%s|li%d' % (p['cls'], len(p['N']), round(-math.log10(p['eps'])), p['prec'], p['max_full'], p['ls'], p['x0'], p['band'],
+                                                       p['plan']['kind'] if p['plan'] else 'nofault', p.get('li', 40))
 
 
 def solve(p, A, b, x0, use_cpp=False):
     return torchtt.solvers.amen_solve(A, b, x0=x0, eps=p['eps'], max_full=p['max_full'], local_solver=p['ls'], preconditioner=p['prec'],
-                                      band_diagonal=p['band'], use_cpp=use_cpp, verbose=False)
+                                      band_diagonal=p['band'], use_cpp=use_cpp, verbose=False, local_iterations=p.get('li', 40), resets=p.get('resets', 2))
 
 
 def residual(A, x, b):
